@@ -1480,7 +1480,7 @@ Proof.
   induction f as [|f IH]; intros o e t He Hp H; [discriminate|].
   destruct t; try reflexivity; try (cbn [validate] in H; discriminate).
   - (* union *)
-    cbn [validate] in H. apply any_branch_true in H. destruct H as (pre & c & post & -> & _ & Hc).
+    cbn [validate] in H. apply any_branch_true in H. destruct H as (pre & c & post & -> & _ & _ & Hc).
     cbn [plain_type] in Hp. rewrite forallb_forall in Hp. cbn [nullok]. apply existsb_exists. exists c.
     assert (Hin : In c (pre ++ c :: post)) by (apply in_or_app; right; left; reflexivity).
     split; [exact Hin|]. eapply IH; [exact He|apply Hp; exact Hin|exact Hc].
@@ -1594,3 +1594,250 @@ Section PyLoops.
       constructor; [split; [reflexivity|apply Hq; reflexivity]|exact Ho].
   Qed.
 End PyLoops.
+
+Lemma Forall2_and_l {A B} (R : A -> B -> Prop) (P : A -> Prop) l r :
+  Forall2 R l r -> Forall P l -> Forall2 (fun x y => P x /\ R x y) l r.
+Proof. induction 1; intros HP; [constructor|]. inversion HP; subst. constructor; [split; assumption|auto]. Qed.
+
+Lemma Forall2_impl2 {A B} (R S : A -> B -> Prop) l r : (forall x y, R x y -> S x y) -> Forall2 R l r -> Forall2 S l r.
+Proof. intros H; induction 1; constructor; auto. Qed.
+
+Lemma Forall2_in_r {A B} (R : A -> B -> Prop) l r y : Forall2 R l r -> In y r -> exists x, In x l /\ R x y.
+Proof.
+  induction 1 as [|x0 y0 l r Hxy _ IH]; intros Hin; [destruct Hin|]. destruct Hin as [<-|Hin].
+  - exists x0. split; [left; reflexivity|exact Hxy].
+  - destruct (IH Hin) as (x & Hx & Hr). exists x. split; [right; exact Hx|exact Hr].
+Qed.
+
+Lemma nodup_str_NoDup l : nodup_str l = true -> NoDup l.
+Proof.
+  induction l as [|x l IH]; cbn [nodup_str]; intros H; [constructor|]. apply andb_prop in H. destruct H as [H1 H2].
+  constructor; [|apply IH; exact H2]. intros Hin. apply existsb_beqb in Hin. rewrite Hin in H1. discriminate.
+Qed.
+
+Lemma nodup_keys_NoDup (R : pyval -> aval -> Prop) kv (r : list (bytes * aval)) :
+  Forall2 (fun p q => fst p = PStr (fst q) /\ R (snd p) (snd q)) kv r -> nodup_keys kv = true -> NoDup (map fst r).
+Proof.
+  induction 1 as [|[k x] [kb a] kv r [Hk _] Hrest IH]; intros Hn; [constructor|]. cbn [fst snd map] in *. subst k.
+  cbn [nodup_keys] in Hn. apply andb_prop in Hn. destruct Hn as [H1 H2]. constructor; [|apply IH; exact H2].
+  intros Hin. apply in_map_iff in Hin. destruct Hin as (q & Hq & Hinq).
+  destruct (Forall2_in_r _ _ _ _ Hrest Hinq) as (p & Hp & Hpk & _).
+  assert (Hex : existsb (fun p0 => py_eqb (PStr kb) (fst p0)) kv = true).
+  { apply existsb_exists. exists p. split; [exact Hp|]. cbn beta. rewrite Hpk. cbn [py_eqb]. subst kb. apply beqb_refl. }
+  rewrite Hex in H1. discriminate.
+Qed.
+
+Lemma index_of_nth syms x : forall i0 i, index_of syms x i0 = Some i -> nthZ syms (i - i0) = Some x.
+Proof.
+  induction syms as [|s syms IH]; intros i0 i H; cbn [index_of] in H; [discriminate|].
+  destruct (bytes_eqb s x) eqn:E.
+  - injection H as <-. rewrite Z.sub_diag. apply beqb_eq in E. subst. reflexivity.
+  - pose proof (index_of_range _ _ _ _ H) as Hr. rewrite nthZ_cons_pos by lia.
+    replace (i - i0 - 1) with (i - (i0 + 1)) by lia. apply IH. exact H.
+Qed.
+
+Lemma wrap_union_ropts0 bs b r : wrap_union ropts0 bs b r = r.
+Proof. reflexivity. Qed.
+
+(* float(datum_value) before a "float"/"double" field is written does not change the normalisation *)
+Lemma normalises_float_arg n o e t x b out : match t with SFloat | SDouble => True | _ => False end ->
+  to_double x = WOk b -> normalises n o e t (PFloat b) out -> normalises n o e t x out.
+Proof.
+  intros Ht Hb H. destruct n as [|n]; [destruct H|]. destruct t; try contradiction; cbn [normalises] in *.
+  - destruct H as (b' & x' & H1 & H2 & H3). cbn [to_double] in H1. injection H1 as <-. exists b, x'. repeat split; assumption.
+  - destruct H as (b' & H1 & H2). cbn [to_double] in H1. injection H1 as <-. exists b. split; assumption.
+Qed.
+
+Theorem elab_normalises : forall f o e s v a out,
+  elab f o e s v = WOk a -> wf_env e = true -> wf_schema s = true -> wf_py v = true ->
+  py_of ropts0 e s a = Some out -> normalises f o e s v out.
+Proof.
+  induction f as [|f IH]; intros o e s v a out H He Hs Hv Hp; [discriminate|].
+  destruct s.
+  - cbn [elab] in H. destruct v; try discriminate. injection H as <-. cbn [py_of resolve strip] in Hp. injection Hp as <-. reflexivity.
+  - cbn [elab] in H. destruct v; try discriminate. injection H as <-. cbn [py_of resolve strip] in Hp. injection Hp as <-. reflexivity.
+  - cbn [elab] in H. destruct v; try discriminate. destruct ((INT_MIN <=? z) && (z <=? INT_MAX)); [|discriminate].
+    injection H as <-. cbn [py_of resolve strip] in Hp. injection Hp as <-. reflexivity.
+  - cbn [elab] in H. destruct v; try discriminate. destruct ((LONG_MIN <=? z) && (z <=? LONG_MAX)); [|discriminate].
+    injection H as <-. cbn [py_of resolve strip] in Hp. injection Hp as <-. reflexivity.
+  - (* float *)
+    assert (Hn : exists b x, to_double v = WOk b /\ d2s b = Ok x /\ a = AFloat x).
+    { cbn [elab] in H. destruct v; try discriminate; inv_w H; inv_w H; injection H as <-;
+        (destruct (d2s x) as [y| |] eqn:Ed; cbn [of_res] in E0; try discriminate; injection E0 as <-; eauto). }
+    destruct Hn as (b & x & Hb & Hd & ->). cbn [py_of resolve strip] in Hp. injection Hp as <-. cbn [normalises]. eauto.
+  - (* double *)
+    assert (Hn : exists b, to_double v = WOk b /\ a = ADouble b).
+    { cbn [elab] in H. destruct v; try discriminate; inv_w H; injection H as <-; eauto. }
+    destruct Hn as (b & Hb & ->). cbn [py_of resolve strip] in Hp. injection Hp as <-. cbn [normalises]. eauto.
+  - cbn [elab] in H. destruct v; try discriminate; injection H as <-; cbn [py_of resolve strip] in Hp; injection Hp as <-;
+      cbn [normalises]; eauto.
+  - cbn [elab] in H. destruct v; try discriminate. injection H as <-. cbn [py_of resolve strip] in Hp. injection Hp as <-. reflexivity.
+  - cbn [elab] in H. destruct v; try discriminate; [|destruct (len b =? size); discriminate].
+    destruct (len b =? size); [|discriminate]. injection H as <-. cbn [py_of resolve strip] in Hp. injection Hp as <-. reflexivity.
+  - cbn [elab] in H. destruct v; try discriminate. destruct (index_of syms s 0) as [i|] eqn:Ei; [|discriminate].
+    injection H as <-. cbn [py_of resolve strip] in Hp. apply index_of_nth in Ei. rewrite Z.sub_0_r in Ei. rewrite Ei in Hp.
+    injection Hp as <-. reflexivity.
+  - (* array *)
+    cbn [wf_schema] in Hs.
+    assert (Hitems : forall l r, as_sequence v = Some l -> Forall (fun x => wf_py x = true) l ->
+              elab_items (elab f o e) s l = WOk r -> a = AArray r -> normalises (S f) o e (SArray s) v out).
+    { intros l r Hseq Hwf Hi ->. apply elab_items_inv in Hi. cbn [py_of resolve strip] in Hp.
+      match type of Hp with option_map _ ?g = _ => destruct g as [outs|] eqn:Eg; [|discriminate] end.
+      cbn [option_map] in Hp. injection Hp as <-. cbn [normalises]. exists l, outs.
+      split; [apply as_sequence_items; exact Hseq|]. split; [reflexivity|].
+      eapply (py_items_spec ropts0 e (fun _ => True) (normalises f o e s) s l r); [|exact Eg].
+      eapply Forall2_impl2; [|exact (Forall2_and_l _ _ _ _ Hi Hwf)].
+      intros x y [Hx Hxy]. cbn beta in *. split; [exact I|]. intros out0 Ho. eapply IH; eassumption. }
+    cbn [elab] in H. destruct v; try discriminate; inv_w H; injection H as H.
+    + eapply Hitems; [reflexivity| |exact E|symmetry; exact H].
+      apply Forall_forall. intros y Hy. apply in_map_iff in Hy. destruct Hy as (z & <- & _). reflexivity.
+    + eapply Hitems; [reflexivity| |exact E|symmetry; exact H].
+      apply Forall_forall. intros y Hy. apply in_map_iff in Hy. destruct Hy as (z & <- & _). reflexivity.
+    + cbn [wf_py] in Hv. apply andb_prop in Hv. destruct Hv as [_ Hw].
+      eapply Hitems; [reflexivity|apply forallb_Forall; exact Hw|exact E|symmetry; exact H].
+    + cbn [wf_py] in Hv. apply andb_prop in Hv. destruct Hv as [_ Hw].
+      eapply Hitems; [reflexivity|apply forallb_Forall; exact Hw|exact E|symmetry; exact H].
+  - (* map *)
+    cbn [wf_schema] in Hs. cbn [elab] in H. destruct v as [| | | | | | |l0|l0|kv]; try discriminate; try (destruct l0; discriminate).
+    inv_w H. injection H as <-. apply elab_map_inv in E.
+    cbn [wf_py] in Hv. apply andb_prop in Hv. destruct Hv as [Hv Hw]. apply andb_prop in Hv. destruct Hv as [_ Hnd].
+    apply forallb_Forall in Hw.
+    cbn [py_of resolve strip] in Hp.
+    match type of Hp with option_map _ ?g = _ => destruct g as [res|] eqn:Eg; [|discriminate] end.
+    cbn [option_map] in Hp. injection Hp as <-.
+    assert (HND : NoDup (map fst x)) by exact (nodup_keys_NoDup (fun p0 a0 => elab f o e s p0 = WOk a0) kv x E Hnd).
+    destruct (py_map_spec ropts0 e (normalises f o e s) s kv x) with (acc := @nil (pyval * pyval)) (res := res)
+      as (outs & -> & Ho); [|exact HND|intros; reflexivity|exact Eg|].
+    + eapply Forall2_impl2; [|exact (Forall2_and_l _ _ _ _ E Hw)].
+      intros p q [Hpw [Hk Hel]]. cbn beta in *. split; [exact Hk|]. intros out0 Ho. apply andb_prop in Hpw. destruct Hpw as [_ Hpw].
+      eapply IH; eassumption.
+    + cbn [normalises app]. exists kv, outs. repeat split. exact Ho.
+  - (* union *)
+    pose proof H as H0. apply elab_union_inv in H. destruct H as (i & b & v' & a0 & -> & Hn & Hel & Hcase).
+    cbn [wf_schema] in Hs. apply andb_prop in Hs. destruct Hs as [_ Hbs]. rewrite forallb_forall in Hbs.
+    assert (Hinb : In b bs) by (eapply nthZ_In; exact Hn).
+    cbn [py_of resolve strip] in Hp. rewrite Hn in Hp. destruct (py_of ropts0 e b a0) as [pv|] eqn:Epv; [|discriminate].
+    rewrite wrap_union_ropts0 in Hp. injection Hp as <-.
+    destruct Hcase as [(-> & Hnh & Hc)|(nm & -> & Hd & Hfn)].
+    + assert (Hnb : normalises f o e b v pv) by (eapply IH; [exact Hel|exact He|apply Hbs; exact Hinb|exact Hv|exact Epv]).
+      destruct (union_conforming _ _ _ _ _ _ _ H0 Hnh) as (b' & Hn' & _ & _ & Hconf). rewrite Hn in Hn'. injection Hn' as <-.
+      pose proof (nthZ_range _ _ _ Hn) as Hi.
+      destruct (search_valid _ e v bs i Hc ltac:(lia)) as (c' & Hnc & Hpass & _). rewrite Hn in Hnc. injection Hnc as <-.
+      assert (Hplain : exists b0, In b0 bs /\ hint_pass e v b0 = true /\ conformsP o e b0 v /\ normalises f o e b0 v pv).
+      { exists b. repeat split; assumption. }
+      cbn [normalises]. destruct v; try exact Hplain. destruct (disable_tuple o) eqn:Ed; [exact Hplain|].
+      exfalso. apply Hnh. eexists. split; [reflexivity|exact Ed].
+    + assert (Hwv : wf_py v' = true).
+      { cbn [wf_py forallb] in Hv. apply andb_prop in Hv. destruct Hv as [_ Hv].
+        apply andb_prop in Hv. destruct Hv as [_ Hv]. apply andb_prop in Hv. apply Hv. }
+      assert (Hnb : normalises f o e b v' pv) by (eapply IH; [exact Hel|exact He|apply Hbs; exact Hinb|exact Hwv|exact Epv]).
+      cbn [normalises]. rewrite Hd. exists nm, v', b. split; [reflexivity|]. split; [exact Hinb|]. split; [|exact Hnb].
+      pose proof (find_named_spec nm bs 0) as Hsp. rewrite Hfn in Hsp. destruct Hsp as (pre & b' & post & -> & -> & Hb' & _).
+      rewrite Z.add_0_l, nthZ_app_mid in Hn. injection Hn as <-. exact Hb'.
+  - (* record *)
+    cbn [elab] in H. destruct v; try discriminate.
+    destruct ((strict o || strict_allow_default o) && has_extras kv fs); [discriminate|]. inv_w H. injection H as <-.
+    apply elab_fields_inv in E. cbn [wf_schema] in Hs. apply andb_prop in Hs. destruct Hs as [Hnd Hs]. apply forallb_Forall in Hs.
+    cbn [py_of resolve strip] in Hp.
+    match type of Hp with option_map _ ?g = _ => destruct g as [res|] eqn:Eg; [|discriminate] end.
+    cbn [option_map] in Hp. injection Hp as <-.
+    destruct (py_rec_spec ropts0 e (fun fd out0 => normalises f o e (ftype fd) (field_source kv fd) out0) fs x)
+      with (acc := @nil (pyval * pyval)) (res := res) as (outs & -> & Ho);
+      [|apply nodup_str_NoDup; exact Hnd|intros; reflexivity|exact Eg|].
+    + eapply Forall2_impl2; [|exact (Forall2_and_l _ _ _ _ E Hs)].
+      intros fd y [Hfs (v' & Harg & Hel)] out0 Ho. cbn beta in *. apply andb_prop in Hfs. destruct Hfs as [Hst Hsd].
+      assert (Hfd : wf_py (field_datum kv fd) = true).
+      { unfold field_datum. destruct (dict_get kv (fname fd)) as [x0|] eqn:Eg0; [eapply wf_dict_get; eassumption|].
+        destruct (fdefault fd); [exact Hsd|reflexivity]. }
+      change (field_source kv fd) with (field_datum kv fd).
+      unfold field_arg in Harg. destruct (ftype fd) eqn:Et;
+        try (subst v'; eapply IH; [exact Hel|exact He|exact Hst|exact Hfd|exact Ho]);
+        (destruct Harg as (b & Hb & ->); eapply normalises_float_arg; [exact I|exact Hb|];
+         eapply IH; [exact Hel|exact He|exact Hst|reflexivity|exact Ho]).
+    + cbn [normalises app]. exists kv, outs. repeat split. exact Ho.
+  - (* reference *)
+    cbn [elab] in H. destruct (lookup e n) as [s'|] eqn:El; [|discriminate].
+    cbn [normalises]. exists s'. split; [exact El|].
+    eapply IH; [exact H|exact He|eapply wf_lookup; eassumption|exact Hv|eapply py_of_ref; eassumption].
+  - cbn [elab] in H. cbn [normalises]. cbn [wf_schema] in Hs. rewrite py_of_annot in Hp. eapply IH; eassumption.
+Qed.
+
+(** *** the reader builds a value from every well-typed wire value (named_schemas holds named types) *)
+Section PyTotal.
+  Variables (ro : ropts) (e : env).
+
+  Lemma py_items_total it l : Forall (fun x => exists v, py_of ro e it x = Some v) l ->
+    exists outs,
+    (fix go (l : list aval) : option (list pyval) :=
+       match l with
+       | [] => Some []
+       | x :: l => match py_of ro e it x, go l with Some v, Some r => Some (v :: r) | _, _ => None end
+       end) l = Some outs.
+  Proof.
+    induction 1 as [|x l [v Hv] _ [outs IH]]; [exists []; reflexivity|]. exists (v :: outs). rewrite Hv, IH. reflexivity.
+  Qed.
+
+  Lemma py_map_total vs (l : list (bytes * aval)) : Forall (fun kx => exists v, py_of ro e vs (snd kx) = Some v) l ->
+    forall acc, exists res,
+    (fix go (l : list (bytes * aval)) (acc : list (pyval * pyval)) : option (list (pyval * pyval)) :=
+       match l with
+       | [] => Some acc
+       | (k, x) :: l => match py_of ro e vs x with Some v => go l (dict_set acc k v) | None => None end
+       end) l acc = Some res.
+  Proof.
+    induction 1 as [|[k x] l [v Hv] _ IH]; intros acc; [exists acc; reflexivity|]. cbn [snd] in Hv. rewrite Hv. apply IH.
+  Qed.
+
+  Lemma py_rec_total fs l : Forall2 (fun fd a => exists v, py_of ro e (ftype fd) a = Some v) fs l ->
+    forall acc, exists res,
+    (fix go (fs : list field) (l : list aval) (acc : list (pyval * pyval)) {struct l} : option (list (pyval * pyval)) :=
+       match fs, l with
+       | [], [] => Some acc
+       | f :: fs, x :: l => match py_of ro e (ftype f) x with
+                            | Some v => go fs l (dict_set acc (fname f) v)
+                            | None => None end
+       | _, _ => None
+       end) fs l acc = Some res.
+  Proof.
+    induction 1 as [|fd a fs l [v Hv] _ IH]; intros acc; [exists acc; reflexivity|]. rewrite Hv. apply IH.
+  Qed.
+
+  Theorem py_of_total : named_env e = true -> forall n s a, typedn n e s a -> exists out, py_of ro e s a = Some out.
+  Proof.
+    intros He. induction n as [|n IH]; intros s a Ht; [destruct Ht|].
+    destruct s.
+    15:{ apply typedn_ref in Ht. destruct Ht as (s' & Hl & Ht). destruct (IH _ _ Ht) as [out Ho]. exists out. rewrite <- Ho.
+         apply py_of_resolve. unfold resolve at 1. cbn [strip]. rewrite Hl.
+         destruct (lookup_in _ _ _ Hl) as [k Hin]. unfold named_env in He. rewrite forallb_forall in He. specialize (He _ Hin).
+         cbn [snd] in He. unfold resolve. destruct (strip s'); try discriminate; reflexivity. }
+    15:{ apply typedn_annot in Ht. destruct (IH _ _ Ht) as [out Ho]. exists out. rewrite py_of_annot. exact Ho. }
+    all: destruct a; cbn [typedn] in Ht; try contradiction; cbn [py_of resolve strip]; try (eexists; reflexivity).
+    - destruct Ht as [Hi _]. destruct (nthZ_some syms i Hi) as [x Hx]. rewrite Hx. eexists; reflexivity.
+    - destruct Ht as [_ Hl].
+      destruct (py_items_total s l) as [outs Ho]; [eapply Forall_impl; [|exact Hl]; intros x Hx; exact (IH _ _ Hx)|].
+      rewrite Ho. eexists; reflexivity.
+    - destruct Ht as [_ Hl].
+      destruct (py_map_total s l) with (acc := @nil (pyval * pyval)) as [res Ho];
+        [eapply Forall_impl; [|exact Hl]; intros kx [_ Hx]; exact (IH _ _ Hx)|].
+      match goal with |- exists out, option_map _ ?g = Some out => assert (Hg : g = Some res) by exact Ho; rewrite Hg end.
+      eexists; reflexivity.
+    - destruct Ht as (_ & s0 & Hn & Ht). rewrite Hn. destruct (IH _ _ Ht) as [out Ho]. rewrite Ho. eexists; reflexivity.
+    - destruct (py_rec_total fs l) with (acc := @nil (pyval * pyval)) as [res Ho];
+        [eapply Forall2_impl'; [|exact Ht]; intros fd x Hx; exact (IH _ _ Hx)|].
+      match goal with |- exists out, option_map _ ?g = Some out => assert (Hg : g = Some res) by exact Ho; rewrite Hg end.
+      eexists; reflexivity.
+  Qed.
+End PyTotal.
+
+(* C01, end to end at the Python level: the reader returns the documented normalisation of what was written *)
+Theorem roundtrip_normalised f wo e s v a :
+  elab f wo e s v = WOk a -> wf_env e = true -> named_env e = true -> wf_schema s = true -> wf_py v = true ->
+  floats_ok a = true ->
+  exists out, normalises f wo e s v out /\ write f wo e s v = WOk (wire a) /\
+    forall f', (f <= f')%nat -> forall r, read f' ropts0 e s (wire a ++ r) = Ok (out, r).
+Proof.
+  intros H He Hne Hs Hv Hfl. pose proof (elab_typedn f wo e s v a H He Hs Hv Hfl) as Ht.
+  destruct (py_of_total ropts0 e Hne f s a Ht) as [out Ho]. exists out.
+  split; [eapply elab_normalises; eassumption|]. split; [unfold write; rewrite H; reflexivity|].
+  intros f' Hf r. unfold read. rewrite (wire_dec f e s a Ht f' Hf r). cbn [bind]. rewrite Ho. reflexivity.
+Qed.
